@@ -209,6 +209,127 @@ theorem decoder_memlimit_mono (dec : LzmaDecoder) {m m' : Nat} (hmm : m ≤ m') 
     · have h1 := (decoder_memlimit_exact_err (dec.withLimit dec.params.dictSize) m rd hs hd hroomy hR (Nat.lt_of_not_le hfit)).1
       rw [e1, h] at h1; cases h1
 
+/-! ### streaming decoder `Stream`
+
+`Stream.runStream fuel opts chunks snk` (`Lemmas/MemLimit.lean`) is a complete session: create the
+stream with `opts`, feed the chunks one after the other with the re-submitting loop `Stream.feed`
+(stop at the first `Err`), then `finish`; it returns the final sink and the per-chunk accepted
+counts, or the first error.  `stF.dict` is the dictionary size of the window the unlimited
+stream created from the header (`0` if the header was never completed: then nothing was
+produced).  Bytes produced = growth of `out` (a successful `finish` delivers everything). -/
+
+/-- **Enough memory ⇒ the limit is invisible**, for every chunking of the input: same per-chunk
+results, same final sink. -/
+theorem stream_memlimit_exact_ok (m fuel : Nat) (opts : Options) (chunks : List Bytes)
+    {snk snkU : Sink} {ns : List Nat} (hs : snk.Perfect)
+    (hU : Stream.runStream fuel (optsU opts) chunks snk = (snkU, .ok ns)) :
+    ∃ snkF stF, Stream.feedChunks fuel chunks (Stream.newWithOptions (optsU opts)) snk =
+        (snkF, stF, .ok ns) ∧
+      (min stF.dict (snkU.out.size - snk.out.size) ≤ m →
+        Stream.runStream fuel (optsM opts m) chunks snk = (snkU, .ok ns)) := by
+  obtain ⟨snkF, stF, h1, h2, -⟩ := (Stream.runStream_lim m fuel opts chunks hs).1 _ _ hU
+  exact ⟨snkF, stF, h1, h2⟩
+
+/-- **Not enough memory ⇒ `Err lzma`** (from the `write` that would exceed the limit, or from
+`finish`), the sink holding a prefix of the unlimited output. -/
+theorem stream_memlimit_exact_err (m fuel : Nat) (opts : Options) (chunks : List Bytes)
+    {snk snkU : Sink} {ns : List Nat} (hs : snk.Perfect)
+    (hU : Stream.runStream fuel (optsU opts) chunks snk = (snkU, .ok ns)) :
+    ∃ snkF stF, Stream.feedChunks fuel chunks (Stream.newWithOptions (optsU opts)) snk =
+        (snkF, stF, .ok ns) ∧
+      (m < min stF.dict (snkU.out.size - snk.out.size) →
+        (Stream.runStream fuel (optsM opts m) chunks snk).2 = .error .lzma ∧
+        APre (Stream.runStream fuel (optsM opts m) chunks snk).1.out snkU.out) := by
+  obtain ⟨snkF, stF, h1, -, h3⟩ := (Stream.runStream_lim m fuel opts chunks hs).1 _ _ hU
+  exact ⟨snkF, stF, h1, fun hlt => h3 (by omega)⟩
+
+/-- the two together: given that the unlimited session succeeds, the limited session succeeds
+(and is then identical) IFF the needed window fits -/
+theorem stream_memlimit_exact (m fuel : Nat) (opts : Options) (chunks : List Bytes)
+    {snk snkU : Sink} {ns : List Nat} (hs : snk.Perfect)
+    (hU : Stream.runStream fuel (optsU opts) chunks snk = (snkU, .ok ns)) :
+    ∃ snkF stF, Stream.feedChunks fuel chunks (Stream.newWithOptions (optsU opts)) snk =
+        (snkF, stF, .ok ns) ∧
+      (Stream.runStream fuel (optsM opts m) chunks snk = (snkU, .ok ns) ↔
+        min stF.dict (snkU.out.size - snk.out.size) ≤ m) := by
+  obtain ⟨snkF, stF, h1, h2, h3⟩ := (Stream.runStream_lim m fuel opts chunks hs).1 _ _ hU
+  refine ⟨snkF, stF, h1, fun he => ?_, h2⟩
+  exact Decidable.byContradiction fun hn => by
+    have : (Stream.runStream fuel (optsM opts m) chunks snk).2 = .error .lzma := (h3 hn).1
+    rw [he] at this; cases this
+
+/-- **Errors are preserved** by the limited session (or pre-empted by `Err lzma`). -/
+theorem stream_memlimit_error_preserved (m fuel : Nat) (opts : Options) (chunks : List Bytes)
+    {snk snkU : Sink} {e : Err} (hs : snk.Perfect)
+    (hU : Stream.runStream fuel (optsU opts) chunks snk = (snkU, .error e)) :
+    Stream.runStream fuel (optsM opts m) chunks snk = (snkU, .error e) ∨
+      ((Stream.runStream fuel (optsM opts m) chunks snk).2 = .error .lzma ∧
+        APre (Stream.runStream fuel (optsM opts m) chunks snk).1.out snkU.out) :=
+  (Stream.runStream_lim m fuel opts chunks hs).2 _ _ hU
+
+/-- **Monotonicity** for sessions: success under `m` implies the identical success under every
+`m' ≥ m` and without a limit -/
+theorem stream_memlimit_mono {m m' : Nat} (hmm : m ≤ m') (fuel : Nat) (opts : Options)
+    (chunks : List Bytes) {snk s : Sink} {ns : List Nat} (hs : snk.Perfect)
+    (h : Stream.runStream fuel (optsM opts m) chunks snk = (s, .ok ns)) :
+    Stream.runStream fuel (optsM opts m') chunks snk = (s, .ok ns) ∧
+      Stream.runStream fuel (optsU opts) chunks snk = (s, .ok ns) := by
+  rcases hU : Stream.runStream fuel (optsU opts) chunks snk with ⟨snkU, e | nsU⟩
+  · rcases stream_memlimit_error_preserved m fuel opts chunks hs hU with h' | ⟨h', -⟩
+    · rw [h] at h'; cases h'
+    · rw [h] at h'; cases h'
+  · obtain ⟨snkF, stF, h1, h2, h3⟩ := (Stream.runStream_lim m fuel opts chunks hs).1 _ _ hU
+    obtain ⟨snkF', stF', h1', h2', -⟩ := (Stream.runStream_lim m' fuel opts chunks hs).1 _ _ hU
+    rw [h1] at h1'; cases h1'
+    by_cases hfit : min stF.dict (snkU.out.size - snk.out.size) ≤ m
+    · have e1 : Stream.runStream fuel (optsM opts m) chunks snk = (snkU, .ok nsU) := h2 hfit
+      rw [h] at e1; cases e1
+      exact ⟨h2' (by omega), rfl⟩
+    · have : (Stream.runStream fuel (optsM opts m) chunks snk).2 = .error .lzma := (h3 hfit).1
+      rw [h] at this; cases this
+
+/-- one `write` call from ANY reachable pair of states: `st` is the unlimited stream (invariant
+`Stream.Inv`: it has decoded `H` into the perfect sink), `st.withLimit m` the limited one, whose
+window still fits (`st.need ≤ m`).  The limited call returns the same count, the same sink and
+the corresponding stream iff the window the unlimited stream holds afterwards fits; otherwise
+`Err lzma`.  (`need` = `buf.len()` of the window = `min dict produced`.) -/
+theorem stream_write_memlimit (m : Nat) (data : Bytes) {st : Stream} {base snk : Sink} {H : Bytes}
+    (h : st.Inv base snk H) (hfit : st.need ≤ m) :
+    (∀ n, (st.writeS data snk).2.2 = .ok n →
+      (∃ H1, H <+: H1 ∧ (st.writeS data snk).2.1.Inv base (st.writeS data snk).1 H1) ∧
+      ((st.writeS data snk).2.1.need ≤ m →
+        (st.withLimit m).writeS data snk =
+          ((st.writeS data snk).1, (st.writeS data snk).2.1.withLimit m, .ok n)) ∧
+      (¬ (st.writeS data snk).2.1.need ≤ m →
+        ((st.withLimit m).writeS data snk).2.2 = .error .lzma ∧
+        APre ((st.withLimit m).writeS data snk).1.out (st.writeS data snk).1.out)) ∧
+    (∀ e, (st.writeS data snk).2.2 = .error e →
+      (st.withLimit m).writeS data snk =
+          ((st.writeS data snk).1, (st.writeS data snk).2.1.withLimit m, .error e) ∨
+        (((st.withLimit m).writeS data snk).2.2 = .error .lzma ∧
+          APre ((st.withLimit m).writeS data snk).1.out (st.writeS data snk).1.out)) := by
+  have hrel := Stream.writeS_srel m data h
+  exact ⟨fun n hn => ⟨(hrel.ref n hn).2, hrel.same hfit n hn, hrel.hit hfit n hn⟩,
+    fun e he => hrel.err hfit e he⟩
+
+/-- the invariant holds initially and `st.need = min dict produced` under it -/
+theorem stream_inv_new (opts : Options) (m : Nat) {base : Sink} (hb : base.Perfect) :
+    (Stream.newWithOptions (optsU opts)).Inv base base [] ∧
+      (Stream.newWithOptions (optsU opts)).withLimit m = Stream.newWithOptions (optsM opts m) :=
+  ⟨Stream.Inv.new _ rfl hb, rfl⟩
+
+theorem stream_need_eq {st : Stream} {base snk : Sink} {H : Bytes} (h : st.Inv base snk H) :
+    st.need = min H.length st.dict := h.need_eq
+
+/-- **The stream never holds more than `m` bytes of history**: after ANY sequence of `write` and
+`flush` calls (any data, any sink behaviour) on a stream created with `memlimit = Some(m)`, the
+window — if the stream is in the `Data` state — has `buf.len() ≤ m`. -/
+theorem stream_never_buffers_more (opts : Options) (m : Nat) (cs : List Stream.Call) (snk : Sink)
+    {rs : RunState}
+    (h : (Stream.runCalls cs (Stream.newWithOptions (optsM opts m)) snk).2.1.state = some (.data rs)) :
+    rs.output.buf.size ≤ m ∧ rs.output.memlimit = m :=
+  (Stream.runCalls_bufOK cs snk (Stream.BufOKS.new opts m)).2 rs h
+
 /-! ### non-vacuity: a real stream, a limit equal to the needed window and one below it -/
 
 /-- `"abcabcabc"` as `.lzma` (lc = lp = pb = 0, dictionary 4096, end marker), made by liblzma -/
@@ -261,6 +382,15 @@ example : (lzmaDecompress (Rd.ofBytes (sample.take 20)) (optsU {}) {}).2.isOk = 
       lzmaDecompress (Rd.ofBytes (sample.take 20)) (optsU {}) {} :=
   ⟨by decide +kernel, lzma_memlimit_ge_dict _ _ _ perfect_empty (by decide +kernel)⟩
 
+/-- … while under a small limit it is pre-empted by `Err lzma` (the second alternative of
+`lzma_memlimit_error_preserved` does occur): the input truncated after 24 bytes fails with `eof`
+without a limit and with `lzma` under limit 2 -/
+example : (match (lzmaDecompress (Rd.ofBytes (sample.take 24)) (optsU {}) {}).2 with
+      | .error .eof => true
+      | _ => false) = true ∧
+    isLzmaErr (lzmaDecompress (Rd.ofBytes (sample.take 24)) (optsM {} 2) {}).2 = true := by
+  decide +kernel
+
 /-- … and `lzma_memlimit_mono` has instances: success under 9 gives success under 10 -/
 example : ∃ s r, lzmaDecompress (Rd.ofBytes sample) (optsM {} 10) {} = (s, .ok r) := by
   obtain ⟨snkU, rdU, hU, hsz, hd⟩ := sample_unlimited
@@ -297,5 +427,56 @@ example : ∃ c', FinishSteps (ω := Circ) ⟨sampleDecoder.state, Circ.fromStre
   · rw [hc] at h; cases h
   · rw [hc] at h
     exact ⟨c', stepsTrace_sound 3 hc, by simpa using h⟩
+
+/-! streaming: the sample fed in two fragments (the first ends inside the header) -/
+
+/-- the unlimited session succeeds, accepts `[7, 21]` bytes, delivers 9 bytes; the window the
+stream created has dictionary size 4096 -/
+theorem sample_stream_unlimited :
+    ∃ snkU, Stream.runStream 10 (optsU {}) [sample.take 7, sample.drop 7] {} = (snkU, .ok [7, 21]) ∧
+      snkU.out.size = 9 ∧
+      (Stream.feedChunks 10 [sample.take 7, sample.drop 7] (Stream.newWithOptions (optsU {})) {}).2.1.dict =
+        4096 := by
+  have h1 : (match (Stream.runStream 10 (optsU {}) [sample.take 7, sample.drop 7] {}).2 with
+      | .ok ns => ns == [7, 21]
+      | .error _ => false) = true := by decide +kernel
+  have h2 : (Stream.runStream 10 (optsU {}) [sample.take 7, sample.drop 7] {}).1.out.size = 9 := by
+    decide +kernel
+  rcases hU : Stream.runStream 10 (optsU {}) [sample.take 7, sample.drop 7] {} with ⟨snkU, e | ns⟩
+  · rw [hU] at h1; cases h1
+  · rw [hU] at h1 h2
+    have : ns = [7, 21] := by simpa using h1
+    subst this
+    exact ⟨snkU, rfl, h2, by decide +kernel⟩
+
+/-- limit 9: `stream_memlimit_exact_ok` applies — the limited session is the unlimited one -/
+example : Stream.runStream 10 (optsM {} 9) [sample.take 7, sample.drop 7] {} =
+    Stream.runStream 10 (optsU {}) [sample.take 7, sample.drop 7] {} := by
+  obtain ⟨snkU, hU, hsz, hd⟩ := sample_stream_unlimited
+  obtain ⟨snkF, stF, hF, hok⟩ := stream_memlimit_exact_ok 9 10 {} _ perfect_empty hU
+  rw [hF] at hd
+  rw [hU]
+  exact hok (by dsimp only at hd; rw [hd, hsz]; decide)
+
+/-- limit 8: `stream_memlimit_exact_err` applies -/
+example : (Stream.runStream 10 (optsM {} 8) [sample.take 7, sample.drop 7] {}).2 = .error .lzma := by
+  obtain ⟨snkU, hU, hsz, hd⟩ := sample_stream_unlimited
+  obtain ⟨snkF, stF, hF, herr⟩ := stream_memlimit_exact_err 8 10 {} _ perfect_empty hU
+  rw [hF] at hd
+  exact (herr (by dsimp only at hd; rw [hd, hsz]; decide)).1
+
+/-- the same evaluated directly on the model -/
+example : (Stream.runStream 10 (optsM {} 9) [sample.take 7, sample.drop 7] {}).2.isOk = true ∧
+    (Stream.runStream 10 (optsM {} 9) [sample.take 7, sample.drop 7] {}).1.out.toList =
+      [97, 98, 99, 97, 98, 99, 97, 98, 99] ∧
+    isLzmaErr (Stream.runStream 10 (optsM {} 8) [sample.take 7, sample.drop 7] {}).2 = true := by
+  decide +kernel
+
+/-- `stream_never_buffers_more` has instances in the `Data` state: after three writes (the second
+one is cut short by the 18-byte header staging buffer) with limit 9 the window holds 9 bytes -/
+example : (match (Stream.runCalls [.write (sample.take 7), .write (sample.drop 7), .write (sample.drop 18)]
+      (Stream.newWithOptions (optsM {} 9)) {}).2.1.state with
+    | some (.data rs) => rs.output.buf.size
+    | _ => 0) = 9 := by decide +kernel
 
 end Lzma.C10
